@@ -12,8 +12,9 @@
    transform functions, the element operations, and the class description
    (any number of attributes and properties, any dependency graph — chains,
    cycles, '*' —, spec subclass and plain subclass levels, redeclarations,
-   frozen or not).  wf_class: `attrs` has one entry per name and defaults are
-   well-typed non-sentinel values. *)
+   frozen or not).  wf_class: `attrs` has one entry per name, defaults are
+   well-typed non-sentinel values, and metadata.attrs carries the invalidated_by
+   that build_attr_spec derives from the class text. *)
 From Coq Require Import List ZArith Bool.
 From SC Require Import Base.Res Inval.Desc Inval.Model Inval.Spec Inval.Proofs Corr.InvalCorr.
 Import ListNotations.
@@ -42,7 +43,7 @@ Section C11.
      force — those of a plain subclass included. *)
   Theorem C11_invalidation_map_is_the_declarations : forall k y,
     In (k, y) (inv_map V cd) <-> exists inv, decl_inv cd y = Some inv /\ In k inv.
-  Proof. exact (inv_map_spec cd (proj1 wf)). Qed.
+  Proof. exact (inv_map_spec cd (proj1 wf) (proj2 (proj2 wf))). Qed.
 
   (* After a SUCCESSFUL mutation of a through any single-attribute entry point
      (assignment, deletion, with_/update_/transform_/reset_<a>, element helper;
@@ -192,9 +193,11 @@ Definition ex_types : list (name * Z) := [(0, 0)].
    theorem has something to do *)
 Example C11_chain_example_wf : wf_class ex_chain c_sentinel (c_check ex_types).
 Proof.
-  split; [repeat constructor; simpl; tauto|].
-  intros n dv H. unfold default_of, attr_of in H. simpl in H.
-  destruct n; try discriminate. simpl in H. inversion H. subst. auto.
+  split; [repeat constructor; simpl; tauto|]. split.
+  - intros n dv H. unfold default_of, attr_of in H. simpl in H.
+    destruct n; try discriminate. simpl in H. inversion H. subst. auto.
+  - intros n a H. unfold attr_of in H. simpl in H.
+    destruct n; try discriminate. inversion H; subst. reflexivity.
 Qed.
 
 Example C11_chain_example_closure : reach ex_chain 0 2 /\ closure_b ex_chain 0 = [0; 1; 2].
@@ -264,6 +267,28 @@ Example C11_old_mutual_defaults_refuted :
     = (None, [(2, VI 6); (1, VI 5); (0, VI 2)]).
 Proof. split; vm_compute; reflexivity. Qed.
 
+(* DEFECT (masking member), code before bc35211: class B: b (0): int = 2;
+   z (1): int = 0.  class Q(B) (NOT a spec class): z = spec_property(cache,
+   invalidated_by=[b]).  The declaration in force for z is the property's, the
+   map builder looked at B's Attr only (no dependencies): z was never
+   invalidated.  (A SPEC subclass doing the same — without re-annotating z, and
+   with B's Attr declaring other dependencies — kept B's invalidated_by in
+   metadata.attrs: wf_class, third clause, was violated by build_attr_spec.) *)
+Definition ex_mask : cdesc cval :=
+  mkc [(0, mka (Some (VI 2)) None []); (1, mka None (Some (mkpf true true)) [])]
+      [mkl true [(1, mkm (Some (mkpf true true)) [DName 0])]; mkl false []] false.
+
+Example C11_old_masking_member_ignored_refuted :
+  edge ex_mask 0 1
+  /\ build_map cval ex_mask true false = []
+  /\ inv_map cval ex_mask = [(DName 0, 1)]
+  /\ mutate_attr cval c_sentinel (c_check [(0, 0); (1, 0)]) ex_mask [(0, VI 2); (1, VI 200)] 0 (VI 3)
+                 true true false false false = (None, [(0, VI 3)]).
+Proof.
+  split; [eexists; split; [vm_compute; reflexivity | left; simpl; tauto]|].
+  repeat split; vm_compute; reflexivity.
+Qed.
+
 (* frozen class: in place refused with nothing changed; on a copy the closure
    is cleared inside the initializing window and the original keeps its cache *)
 Definition ex_frozen : cdesc cval :=
@@ -299,4 +324,5 @@ Print Assumptions C11_chain_through_empty_example.
 Print Assumptions C11_old_cascade_stops_refuted.
 Print Assumptions C11_old_plain_subclass_refuted.
 Print Assumptions C11_old_mutual_defaults_refuted.
+Print Assumptions C11_old_masking_member_ignored_refuted.
 Print Assumptions C11_frozen_example.
